@@ -16,9 +16,13 @@ Nothing is registered here.  harness/props/c09.py calls (between "C09W hook" mar
         the update EXACTLY (tie): node dict order, parents, children order, leg permutations, recorded shapes, tensor
         dict order, raw tensor shapes, root, centre,
       - instance obligations: `iso_check` of the model's final store (every non-root node is one Q atom of a QR kernel
-        call whose bond wire is its parent leg) and `wfb` of the model's final store.
+        call whose bond wire is its parent leg), `wfb` of the model's final store, and `shapes_agree`: the rank
+        arithmetic of Sched/BUG.v (`shape_root` on the shapes read off the initial store) gives exactly the shapes of the
+        store model's result (the two Gallina models agree on the instance).
 """
 from __future__ import annotations
+
+import numpy as np
 
 from lib import coq_eval, coq_nat, coq_list, coq_opt, coq_bool
 import util
@@ -26,6 +30,9 @@ import util
 BCOFF = 30          # identifier of "<n>_basis_change_tensor" in the model: n + BCOFF
 RID = 70            # temporary identifier of the R factor of a centre move (a uuid in the code)
 BCS = "_basis_change_tensor"
+WOFF = 400          # wire offset of the conjugated copy of the new bases in the basis-change diagrams
+AOFF = 200          # atom offset of the conjugated copy
+TOL = 1e-9
 
 IMPORTS = ("From Coq Require Import List Arith Bool. "
            "From PTN Require Import TTN.Store TTN.Canon TTN.Inv Tree.RTree Evo.BUGStore. Import ListNotations.")
@@ -33,14 +40,16 @@ IMPORTS = ("From Coq Require Import List Arith Bool. "
 
 # ---- snapshots (run inside the worker that executes the real code) -------------------------------------------------
 def snap(ttn):
-    """everything observable about the structure, without side effects (no TensorDict.__getitem__)"""
+    """everything observable about the structure, without side effects (no TensorDict.__getitem__); the raw arrays are
+    copied for the value-level tie of the basis-change diagrams"""
     nodes = []
     for nid, nd in ttn.nodes.items():
         nodes.append([nid, nd.parent, list(nd.children), [int(x) for x in nd.leg_permutation], [int(x) for x in nd._shape],
                       nd.identifier])
     return {"nodes": nodes, "tkeys": list(ttn._tensors.data.keys()), "root": ttn.root_id,
             "centre": ttn.orthogonality_center_id,
-            "tshapes": {k: [int(x) for x in v.shape] for k, v in ttn._tensors.data.items()}}
+            "tshapes": {k: [int(x) for x in v.shape] for k, v in ttn._tensors.data.items()},
+            "raw": {k: np.array(v) for k, v in ttn._tensors.data.items()}}
 
 
 def idnum(s):
@@ -50,10 +59,31 @@ def idnum(s):
 
 
 # ---- the literal store -------------------------------------------------------------------------------------------------
+def literal_axes(sn):
+    return _wires(sn)[0]
+
+
 def store_literal(sn):
-    """snapshot -> (Coq `store` literal, number of wires).  Wires: one per tree edge (named after the child), one per open
+    """snapshot -> Coq `store` literal.  Wires: one per tree edge (named after the child), one per open
     leg; raw axis perm[j] of a node carries the wire of its logical leg j (parent, children in order, open legs)."""
-    nd = {n[0]: n for n in sn["nodes"]}
+    raw_axes, dims = _wires(sn)
+    atom = {k: j for j, k in enumerate(sn["tkeys"])}
+    nodes_c = coq_list(
+        [f"({coq_nat(idnum(nid))}, {{| parent := {coq_opt(None if par is None else idnum(par), coq_nat)}; "
+         f"children := {coq_list([idnum(c) for c in ch], coq_nat)}; perm := {coq_list(perm, coq_nat)}; "
+         f"shape := {coq_list(shape, coq_nat)} |}})" for nid, par, ch, perm, shape, _ in sn["nodes"]], str)
+    tens_c = coq_list(
+        [f"({coq_nat(idnum(k))}, {{| axes := {coq_list(raw_axes[k], coq_nat)}; atoms := [{coq_nat(atom[k])}]; bnd := [] |}})"
+         for k in sn["tkeys"]], str)
+    dims_c = coq_list([f"({coq_nat(w)}, {coq_nat(d)})" for w, d in enumerate(dims)], str)
+    atab_c = coq_list([f"({coq_nat(atom[k])}, {coq_list(raw_axes[k], coq_nat)})" for k in sn["tkeys"]], str)
+    root_c = coq_opt(None if sn["root"] is None else idnum(sn["root"]), coq_nat)
+    lit = (f"{{| nodes := {nodes_c}; tensors := {tens_c}; root := {root_c}; dims := {dims_c}; "
+           f"next_wire := {coq_nat(len(dims))}; next_atom := {coq_nat(len(atom))}; defs := []; atab := {atab_c} |}}")
+    return lit
+
+
+def _wires(sn):
     wire = {}
     dims = []
 
@@ -80,20 +110,7 @@ def store_literal(sn):
         if any(w is None for w in raw):
             raise ValueError(f"leg permutation of {nid} is not a permutation: {perm}")
         raw_axes[nid] = raw
-    atom = {k: j for j, k in enumerate(sn["tkeys"])}
-    nodes_c = coq_list(
-        [f"({coq_nat(idnum(nid))}, {{| parent := {coq_opt(None if par is None else idnum(par), coq_nat)}; "
-         f"children := {coq_list([idnum(c) for c in ch], coq_nat)}; perm := {coq_list(perm, coq_nat)}; "
-         f"shape := {coq_list(shape, coq_nat)} |}})" for nid, par, ch, perm, shape, _ in sn["nodes"]], str)
-    tens_c = coq_list(
-        [f"({coq_nat(idnum(k))}, {{| axes := {coq_list(raw_axes[k], coq_nat)}; atoms := [{coq_nat(atom[k])}]; bnd := [] |}})"
-         for k in sn["tkeys"]], str)
-    dims_c = coq_list([f"({coq_nat(w)}, {coq_nat(d)})" for w, d in enumerate(dims)], str)
-    atab_c = coq_list([f"({coq_nat(atom[k])}, {coq_list(raw_axes[k], coq_nat)})" for k in sn["tkeys"]], str)
-    root_c = coq_opt(None if sn["root"] is None else idnum(sn["root"]), coq_nat)
-    lit = (f"{{| nodes := {nodes_c}; tensors := {tens_c}; root := {root_c}; dims := {dims_c}; "
-           f"next_wire := {coq_nat(len(dims))}; next_atom := {coq_nat(len(atom))}; defs := []; atab := {atab_c} |}}")
-    return lit
+    return raw_axes, dims
 
 
 def visit_tree(events, root):
@@ -112,11 +129,93 @@ def visit_tree(events, root):
     return top
 
 
-def expr(fixed, sn0, events):
+def expr(fixed, sn0, events, fn="bug_case"):
     t = visit_tree(events, idnum(sn0["root"]))
     centre = coq_opt(None if sn0["centre"] is None else idnum(sn0["centre"]), coq_nat)
-    return (f"bug_case {coq_bool(fixed)} {coq_nat(BCOFF)} {coq_nat(RID)} {util.coq_rtree(t)} "
+    return (f"{fn} {coq_bool(fixed)} {coq_nat(BCOFF)} {coq_nat(RID)} {coq_nat(WOFF)} {coq_nat(AOFF)} {util.coq_rtree(t)} "
             f"({store_literal(sn0)}, {centre})")
+
+
+# ---- value-level tie of the basis-change diagrams --------------------------------------------------------------------------
+def eval_open(summary, tables):
+    """numeric value of a diagram with open axes: atoms with their wire tables, glued wires identified, bound wires summed;
+    result axes in the order of `axes`"""
+    axes, atoms, bnd, glue = summary
+    parent = {}
+
+    def find(w):
+        parent.setdefault(w, w)
+        while parent[w] != w:
+            parent[w] = parent[parent[w]]
+            w = parent[w]
+        return w
+    for a, b in glue:
+        parent[find(a)] = find(b)
+    lab = {}
+
+    def L(w):
+        r = find(w)
+        if r not in lab:
+            lab[r] = len(lab)
+        return lab[r]
+    args = []
+    for a in atoms:
+        val, ws = tables[a]
+        if val.ndim != len(ws):
+            raise ValueError(f"atom {a}: {val.ndim} axes, wire table has {len(ws)}")
+        args += [val, [L(w) for w in ws]]
+    out = [L(w) for w in axes]
+    if len(lab) > 52 or len(set(out)) != len(out):
+        return None
+    return np.einsum(*args, out, optimize="greedy")
+
+
+def check_bc(what, sn0, sn1, bcs, val):
+    """compare every basis-change matrix the implementation computed with the value of the model's diagram evaluated on
+    the caller's tensors (old bases) and the returned tensors (new bases).  -> (n checked, message or None)"""
+    if isinstance(val, BaseException):
+        return 0, f"{what}: model evaluation of the basis-change diagrams failed: {val}"
+    if val is None or val == "None":
+        return 0, f"{what}: the store model rejects the step"
+    mtens, mvals = _unsome(val)
+    # wire tables: caller's store (literal: atom j = raw tensor of tkeys[j]) and returned store (one atom per node)
+    tables = {}
+    lit_axes = literal_axes(sn0)
+    for j, k in enumerate(sn0["tkeys"]):
+        tables[j] = (sn0["raw"][k], lit_axes[k])
+    names = {idnum(k): k for k in sn1["tkeys"]}
+    for (k, axes, atoms, bnd) in mtens:
+        if len(atoms) != 1 or bnd:
+            return 0, f"{what}: tensor of node {k} in the model's returned store is not a single atom"
+        tables[int(atoms[0]) + AOFF] = (np.conj(sn1["raw"][names[int(k)]]), [int(w) + WOFF for w in axes])
+    seen = {}
+    for (n, m) in bcs:
+        seen[int(n)] = m
+    count = 0
+    for (k, summ) in mvals:
+        k = int(k)
+        if summ is None or summ == "None":
+            if k in seen:
+                return count, f"{what}: no model diagram for the basis-change matrix of node {k}"
+            continue
+        axes, atoms, bnd, glue = _unsome(summ)
+        if k not in seen:
+            return count, f"{what}: the implementation computed no basis-change matrix for node {k}"
+        try:
+            t = eval_open((list(axes), list(atoms), list(bnd), [tuple(p) for p in glue]), tables)
+        except Exception as e:  # noqa
+            return count, f"{what}: diagram of M_{k} cannot be evaluated on the captured tensors: {type(e).__name__}: {e}"
+        if t is None:
+            continue
+        m = seen[k]
+        if tuple(t.shape) != tuple(m.shape):
+            return count, f"{what}: M_{k} has shape {m.shape}, the model diagram {t.shape}"
+        err = float(np.max(np.abs(t - m))) / max(1.0, float(np.max(np.abs(m)))) if m.size else 0.0
+        if not err <= TOL:
+            return count, (f"{what}: basis-change matrix M_{k} differs from the value of the model diagram "
+                           f"(old bases of the subtree contracted with the conjugated new bases) by {err:.3e}")
+        count += 1
+    return count, None
 
 
 # ---- comparison -------------------------------------------------------------------------------------------------------
@@ -132,8 +231,10 @@ def check_one(what, sn1, val):
     obl = [("wfb of the literal of the caller's state", wf0 is True)]
     if res is None or res == "None":
         return obl, f"{what}: the store model rejects the step (an assertion, shape check or wire equality fails) but the implementation completed"
-    (mnodes, mtens, mroot, mcentre, iso, wf1) = _unsome(res)       # nested pairs print left-flattened
-    obl += [("iso_check of the model's returned store", iso is True), ("wfb of the model's returned store", wf1 is True)]
+    (mnodes, mtens, mroot, mcentre, iso, wf1, shp, bcok) = _unsome(res)       # nested pairs print left-flattened
+    obl += [("iso_check of the model's returned store", iso is True), ("wfb of the model's returned store", wf1 is True),
+            ("shape_root of Sched/BUG.v predicts the shapes of the store model's result (shapes_agree)", shp is True),
+            ("hypothesis checker of the basis-change diagram theorem for every non-root node (bc_all_okb)", bcok is True)]
     inodes = [[idnum(n[0]), [idnum(n[1])] if n[1] is not None else [], [idnum(c) for c in n[2]], list(n[3]), list(n[4])]
               for n in sn1["nodes"]]
     for n in sn1["nodes"]:
@@ -159,9 +260,13 @@ def check_one(what, sn1, val):
     return obl, None
 
 
+stats = {}
+
+
 def run(ctx, cases, obs, limit=None):
     """hook for C09.model: evaluates the sampled steps, stores the first tie message of a case in ob['w_tie'].
     Returns (n_obligations, n_ok, failures)."""
+    stats.clear()
     if limit is None:
         limit = ctx.scale(160, 1500)
     recs = []
@@ -178,13 +283,13 @@ def run(ctx, cases, obs, limit=None):
                 sn1 = (st.get("aug") or {}).get("w1")
                 if sn0 is None or sn1 is None or "exception" in st:
                     continue
-                recs.append((ob, f"deep={deep} step {s}", fixed, sn0, sn1, st["events"]))
+                recs.append((ob, f"deep={deep} step {s}", fixed, sn0, sn1, st["events"], st.get("bcs") or []))
     # sample: every record up to the limit, spread over the cases (deterministic)
     if len(recs) > limit:
         stride = len(recs) / float(limit)
         recs = [recs[int(k * stride)] for k in range(limit)]
     exprs = []
-    for (ob, what, fixed, sn0, sn1, events) in recs:
+    for (ob, what, fixed, sn0, sn1, events, bcs) in recs:
         try:
             exprs.append(expr(fixed, sn0, events))
         except Exception as e:  # noqa
@@ -196,7 +301,7 @@ def run(ctx, cases, obs, limit=None):
     n = ok = 0
     fails = []
     for (r, e) in good:
-        (ob, what, fixed, sn0, sn1, events) = r
+        (ob, what, fixed, sn0, sn1, events, bcs) = r
         try:
             obl, tie = check_one(what, sn1, vals[e])
         except Exception as ex:  # noqa
@@ -210,4 +315,28 @@ def run(ctx, cases, obs, limit=None):
             elif len(fails) < 5:
                 fails.append(f"{name} is not true ({what})")
         ob["w_checked"] = ob.get("w_checked", 0) + 1
+    # value-level tie of the basis-change diagrams on a subsample
+    blimit = ctx.scale(48, 400)
+    sub = [r for r, e in good]
+    if len(sub) > blimit:
+        stride = len(sub) / float(blimit)
+        sub = [sub[int(k * stride)] for k in range(blimit)]
+    bexprs = [expr(r[2], r[3], r[5], fn="bc_case") for r in sub]
+    buniq = sorted(set(bexprs))
+    bvals = dict(zip(buniq, coq_eval(ctx, IMPORTS, buniq, shard=max(4, len(buniq) // 14 + 1), scope="nat_scope", timeout=600)))
+    nbc = 0
+    for r, e in zip(sub, bexprs):
+        (ob, what, fixed, sn0, sn1, events, bcs) = r
+        try:
+            cnt, msg = check_bc(what, sn0, sn1, bcs, bvals[e])
+        except Exception as ex:  # noqa
+            cnt, msg = 0, f"{what}: cannot interpret the basis-change diagrams: {type(ex).__name__}: {ex}"
+        nbc += cnt
+        if msg and not ob.get("w_tie"):
+            ob["w_tie"] = "store-level tie: " + msg
+    stats["bc matrices compared with their diagram"] = nbc
+    # drop the bulky arrays
+    for (ob, what, fixed, sn0, sn1, events, bcs) in recs:
+        sn0.pop("raw", None)
+        sn1.pop("raw", None)
     return n, ok, fails
